@@ -411,5 +411,28 @@ func TestDriveC07Ctl(t *testing.T) {
 		}
 		rec.Emit(Ev{"ev": "CtlSweep", "gmin": c.Fan.GetMinPwm(), "mx": c.Fan.GetMaxPwm(), "map": pairs(m), "reqs": reqs, "regs": regs})
 		c.Close()
+		// the direct algorithm with maxPwmChangePerCycle: from one and the same previous state, the
+		// request is non-decreasing in the curve value
+		if i%3 == 0 {
+			lim := []int{1, 5, 10, 50}[r.Intn(4)]
+			prev := r.Intn(256)
+			spec.Alg = AlgSpec{T: "rate", M: lim}
+			var rr []int
+			for cv := 0; cv <= 255; cv += 1 {
+				// the fan shows `prev` and the first cycle asks for `prev`: the loop's previous output is exactly prev
+				c2 := NewCtl(null, spec, prev, 2, 0)
+				_, err := c2.Cycle(prev, 0)
+				must(err)
+				y0 := c2.Loop.out
+				if y0 != prev {
+					panic("C07 rate sweep: previous loop output is not the intended one")
+				}
+				req, err := c2.Cycle(cv, 0)
+				must(err)
+				rr = append(rr, req)
+				c2.Close()
+			}
+			rec.Emit(Ev{"ev": "CtlSweepRate", "gmin": c.Fan.GetMinPwm(), "mx": c.Fan.GetMaxPwm(), "m": lim, "prev": prev, "reqs": rr})
+		}
 	}
 }
